@@ -143,10 +143,16 @@ impl FeoxStore {
         let mut observed = None;
 
         loop {
+            #[cfg(feoxdb_verif)]
+            crate::verif::sched::point("incr_loop");
             let Some(current) = self.hash_table.read(key, |_, record| Arc::clone(record)) else {
+                #[cfg(feoxdb_verif)]
+                crate::verif::sched::point("incr_vac_retired");
                 let retired_at = observed
                     .as_ref()
                     .map_or(0, |record: &Arc<Record>| record.retirement_timestamp());
+                #[cfg(feoxdb_verif)]
+                crate::verif::sched::point("incr_vac_ts");
                 let timestamp = match explicit_timestamp {
                     Some(timestamp) => timestamp,
                     None => {
@@ -157,6 +163,8 @@ impl FeoxStore {
                 if timestamp <= retired_at {
                     return Err(FeoxError::OlderTimestamp);
                 }
+                #[cfg(feoxdb_verif)]
+                crate::verif::sched::point("incr_vac_guard");
 
                 match self.hash_table.entry(key_vec.clone()) {
                     scc::hash_map::Entry::Occupied(_) => continue,
@@ -226,7 +234,11 @@ impl FeoxStore {
                     .map_err(|_| FeoxError::InvalidNumericValue)?,
             );
             let new_value = current_value.saturating_add(delta);
+            #[cfg(feoxdb_verif)]
+            crate::verif::sched::point("incr_ts");
             let timestamp = explicit_timestamp.unwrap_or_else(|| self.get_timestamp(key));
+            #[cfg(feoxdb_verif)]
+            crate::verif::sched::point("incr_guard");
 
             match self.hash_table.entry(key_vec.clone()) {
                 scc::hash_map::Entry::Occupied(mut entry) => {
@@ -496,7 +508,11 @@ impl FeoxStore {
             source
         };
 
+        #[cfg(feoxdb_verif)]
+        crate::verif::sched::point("cas_ts");
         let timestamp = self.resolve_timestamp(key, timestamp);
+        #[cfg(feoxdb_verif)]
+        crate::verif::sched::point("cas_guard");
         self.replace_record_if_current(
             &key_vec,
             &initial_record,
